@@ -217,6 +217,10 @@ def brentsrootvec(f, bounds, tol=None, verbose=False, return_interval=False, acc
     
     """
     lower_bound, upper_bound = bounds
+    if "int" in str(lower_bound.dtype) or "bool" in str(lower_bound.dtype):
+        # whole-number bracket ends given as integer arrays: the iterates and the function values are not integers
+        __f64 = D.autoray.to_backend_dtype("float64", like=lower_bound)
+        lower_bound, upper_bound = D.ar_numpy.astype(lower_bound, __f64), D.ar_numpy.astype(upper_bound, __f64)
     if tol is None:
         tol = D.epsilon(lower_bound.dtype)
     if tol < D.epsilon(lower_bound.dtype):
